@@ -114,6 +114,11 @@ def streams(tier, rng, P, only=None, cases=None):
         for j, (d, c_, exp) in enumerate([("\n\n#A={c ! d}\n#A", "\n\n#A={c d}\n#A", [(3, "!")]), ("STR Mcr={c ! d}\n\nr\nMcr e", "STR Mcr={c d}\n\nr\nMcr e", [(3, "!")]),
                                           ("#A={c #?1 ! d}\n\n#A({e})", "#A={c #?1 d}\n\n#A({e})", [(2, "!")]), ("\n#B={ZZZ c}\n\n\nr #B r\n#B", "\n#B={c}\n\n\nr #B r\n#B", [(4, "ZZZ"), (5, "ZZZ")])]):
             cs.append(dict(req="compile2 %s %s" % (hx(d), hx(c_)), src=d, show=repr(d), exp=exp, key="mac%d" % j))
+        for j, (d, c_, exp) in enumerate([("#M={ c #?1 ! d }\nFunction F(A){ c }\ne\nF(1) #M({e})", "#M={ c #?1 d }\nFunction F(A){ c }\ne\nF(1) #M({e})", [(3, "!")]),
+                                          ("#M={ o#?1 ZZZ c }\n\n/* a\nb */ #M(5)", "#M={ o#?1 c }\n\n/* a\nb */ #M(5)", [(3, "ZZZ")]),
+                                          ("#M={ #?1 ! }\nFOR(INT I=0;I<2;I++){\n c\n} #M({d})", "#M={ #?1 }\nFOR(INT I=0;I<2;I++){\n c\n} #M({d})", [(3, "!")]),
+                                          ("#M={ #?1 ! }\nc4\n^8 #M({d})", "#M={ #?1 }\nc4\n^8 #M({d})", [(2, "!")])]):
+            cs.append(dict(req="compile2 %s %s" % (hx(d), hx(c_)), src=d, show=repr(d), exp=exp, key="macarg%d" % j))
         for j, (d, c_, exp) in enumerate([("c !d e", "c d e", [(0, "!")]), ("\n\nc\n!", "\n\nc\n", [(3, "!")]), ("c\n\n\n!", "c\n\n\n", [(3, "!")]), ("c\n\n\nZZZ d", "c\n\n\n d", [(3, "ZZZ")])]):
             cs.append(dict(req="compile2 %s %s" % (hx(d), hx(c_)), src=d, show=repr(d), exp=exp, key="fixed%d" % j))
         return cs
